@@ -76,6 +76,13 @@ def ks (exp : R → R) (coco : Bool) (eps s : R) (n : Node R) : R :=
     | none => 0
     | some p => exp (-(d2 g p / normFactor coco eps n.sd s))
 
+/-- the argument of `np.exp` for one keypoint (`none` when the keypoint contributes KS 0): the
+part of `ks` that is exact rational arithmetic -/
+def ksArg (coco : Bool) (eps s : R) (n : Node R) : Option R :=
+  match vis n.g, vis n.p with
+  | some g, some p => some (-(d2 g p / normFactor coco eps n.sd s))
+  | _, _ => none
+
 def nVis (nodes : List (Node R)) : Nat := (nodes.filter (fun n => isVis n.g)).length
 
 /-- `np.sum((~missing_gt).astype("float32"))` -/
@@ -116,6 +123,14 @@ def oksMatrix (exp : R → R) (coco : Bool) (eps : R) (sds : List R)
 def oksMatrixAsIs (exp : R → R) (coco : Bool) (eps : R) (sds : List R)
     (gts : List (Option R × List (Pt R))) (prs : List (List (Pt R))) : Option (List (List (Option R))) :=
   if prs.length = 1 then some (oksMatrix exp coco eps sds gts prs) else none
+
+/-- A *history* of `compute_oks` calls: each call sees only its own arguments.  In the model this
+is a `map`; that the real function behaves like one (does not modify its argument arrays, keeps no
+state between calls) is the obligation the correspondence checks on call histories. -/
+def oksHistory (exp : R → R) (eps : R)
+    (calls : List (Bool × List R × List (Option R × List (Pt R)) × List (List (Pt R)))) :
+    List (List (List (Option R))) :=
+  calls.map (fun c => oksMatrix exp c.1 eps c.2.1 c.2.2.1 c.2.2.2)
 
 /-! ## `match_instances` -/
 
